@@ -76,6 +76,10 @@ Definition dyn_ready (w : world) : bool :=
   negb (existsb (fun f => dj_is_not_ready (derive_input w false f)) (c_init w)
         || existsb (fun f => dj_is_not_ready (derive_input w true f)) (c_dyn w)).
 
+(* Step.has_unusable_dynamic_input(): EXISTS over the dynamic dependencies (generated per-input test) *)
+Definition has_unusable_dyn (w : world) : bool :=
+  existsb (fun f => unusable_dyn_input_gen (f_state (files w f)) (f_detached (files w f))) (c_dyn w).
+
 (* ------------------------------ _new_run ------------------------------ *)
 
 (* _compute_inp_step_hash: cancelled (None, {}), unexpected changes (None, new hashes), or the
@@ -126,8 +130,13 @@ Definition inp_equal (sh : shash) (envc : N) (inp : list (N * N)) : bool :=
 (* ---- pop_next_job, then execute_job up to the command / try_skip_job up to the output hashing /
         the whole of validate_dynamic_job ----
    `vg` = the decision of validate_dynamic_job after _new_run (generated: validate_gen); it is a
-   parameter so that the code before fix d760e3e (validate_prefix below) can be named as well. *)
-Definition do_xtry_gen (vg : bool -> bool -> bool * bool * N * bool)
+   parameter so that the code before fix d760e3e (validate_prefix below) can be named as well.
+   Its third argument is step.has_unusable_dynamic_input() (84081f2, fix of D39).  The source
+   evaluates it in the transaction that records the outcome; the whole of validate_dynamic_job is
+   ONE event here (no other actor acts between the derivation of the job and its outcome), so it is
+   evaluated on the rows of the dispatch.  What follows for a world in which the inputs came back
+   in between is stated for ANY world: FreshSkipProofs.not_deferred_after_validate_is_checked. *)
+Definition do_xtry_gen (vg : bool -> bool -> bool -> bool * bool * N * bool)
     (x : xworld) (t : N) (cancel : bool) : xworld * xres :=
   let w := xb x in
   if negb (dispatchable w) || is_checking x then (x, XRTry 0 false)
@@ -154,7 +163,7 @@ Definition do_xtry_gen (vg : bool -> bool -> bool * bool * N * bool)
             let ie := inp_equal sh (x_envc x) inp in
             match k with
             | JK_validate =>
-                let '(reset, state_set, st, df) := vg true ie in
+                let '(reset, state_set, st, df) := vg true ie (has_unusable_dyn w) in
                 if reset then (apply_reset x w, XRTry kn false)
                 else if state_set then (set_xb x (set_crow w st df (c_dc w)), XRTry kn false)
                 else (set_xb x w, XRTry kn false)
@@ -172,7 +181,7 @@ Definition do_xtry := do_xtry_gen validate_gen.
 
 (* validate_dynamic_job as it was before fix d760e3e (finding D36): the "digest unchanged" branch
    called set_state(StepState.PENDING), i.e. deferred = False.  Kept to name the regression. *)
-Definition validate_prefix (new_run_ok inp_equal : bool) : bool * bool * N * bool :=
+Definition validate_prefix (new_run_ok inp_equal unusable_dyn : bool) : bool * bool * N * bool :=
   if negb new_run_ok then (false, false, 0, false)
   else if negb inp_equal then (true, false, 0, false)
   else (false, true, SS_PENDING, false).
